@@ -16,7 +16,7 @@ Theorem C02_field_table_correct :
     let file := lay (eol_of crlf) (map (intercalate [9]) rows) in
     exists t, delim_table 9 file = Some t /\ t_data t = file /\ table_fields t = rows /\ len (t_starts t) = len rows
               /\ (forall row s, In row (t_starts t) -> In s row -> 0 <= s)
-              /\ (forall row e, In row (t_ends t) -> In e row -> e <= len file).
+              /\ (forall row e, In row (t_ends t) -> In e row -> e < len file).
 Proof. exact field_table_correct. Qed.
 Print Assumptions C02_field_table_correct.
 
@@ -69,6 +69,111 @@ Theorem C02_sizes_end_to_end :
     run Fsizes None (body_of crlf rows) = Obs (len rows) (spec_cols Fsizes None rows) true.
 Proof. exact sizes_end_to_end. Qed.
 Print Assumptions C02_sizes_end_to_end.
+
+(* Every supported column type on a table that denotes the records: string, identifier, integer, VCF position,
+   Optional[int] (repaired wrapper: "." row by row), strand symbol, list of integers (repaired split). *)
+Theorem C02_typed_col_correct :
+  forall t rows j ty,
+    table_ok t rows -> rows <> [] -> 0 <= j -> (forall r, In r rows -> j < len r) ->
+    (forall r, In r rows -> wf_field ty (field r j) = true) ->
+    (ty = TSid -> exists r, In r rows /\ field r j <> []) ->
+    typed_col t j ty = spec_col rows (j, ty).
+Proof. exact typed_col_correct. Qed.
+Print Assumptions C02_typed_col_correct.
+
+(* The repaired list split (notes/C02.fix-2.diff, committed in /repo): whatever byte follows each field, a column of
+   list texts is parsed row by row into the items between commas — empty lists and trailing commas included. *)
+Theorem C02_intlist_fixed_correct :
+  forall (A : Type) (parser : list Z -> option A) (fields : list (list Z)) (after : list Z -> Z),
+    (forall f, In f fields -> forall it, In it (list_items f) -> it <> []) ->
+    parse_split_fixed parser (map (fun f => f ++ [after f]) fields) = mapM (fun f => mapM parser (list_items f)) fields.
+Proof. exact @intlist_fixed_correct. Qed.
+Print Assumptions C02_intlist_fixed_correct.
+
+(* Whole files of EVERY float-free TAB-delimited format read through delim_table — BED3, BED6 (strand, optional
+   score), BED12 (list columns), chrom.sizes, pairs, GFA S-lines, GTF, VCF fixed columns (POS - 1) with INFO kept
+   as text: any '#' header block, >= 1 records of n clean fields, every schema column well-formed for its type,
+   LF or CRLF => one entry per record and exactly the columns the format assigns. *)
+Theorem C02_delimited_end_to_end :
+  forall (f : format) (crlf : bool) (hs : list (list Z)) (rows : list (list (list Z))) (n : Z),
+    delim_format f = true ->
+    (forall h, In h hs -> hd0 h = 35 /\ ~ In 10 h) ->
+    rows <> [] -> 1 <= n ->
+    (forall r, In r rows -> len r = n /\ forall x, In x r -> clean x) ->
+    (forall jt, In jt (all_cols f) -> col_wf rows n jt) ->
+    hd0 (body_of crlf rows) <> 35 ->
+    (eager_format f = true -> existsb is_err (spec_cols f None rows) = false) ->
+    run f None (lay (eol_of crlf) hs ++ body_of crlf rows) = Obs (len rows) (spec_cols f None rows) true.
+Proof. exact delimited_end_to_end. Qed.
+Print Assumptions C02_delimited_end_to_end.
+(* Column by column, for the formats that also carry float columns (bedGraph, narrowPeak): the count is right and
+   every well-formed non-float column (chromosome, start, stop, name, score, strand, summit) is what the format assigns. *)
+Theorem C02_delimited_columns :
+  forall (f : format) (crlf : bool) (hs : list (list Z)) (rows : list (list (list Z))) (n : Z),
+    delim_format f = true -> eager_format f = false ->
+    (forall h, In h hs -> hd0 h = 35 /\ ~ In 10 h) ->
+    rows <> [] -> 1 <= n ->
+    (forall r, In r rows -> len r = n /\ forall x, In x r -> clean x) ->
+    hd0 (body_of crlf rows) <> 35 ->
+    exists t, run f None (lay (eol_of crlf) hs ++ body_of crlf rows) = Obs (len rows) (run_cols f None t) true
+              /\ forall jt, col_wf rows n jt -> typed_col t (fst jt) (snd jt) = spec_col rows jt.
+Proof. exact delimited_columns. Qed.
+Print Assumptions C02_delimited_columns.
+
+(* T5: records that are groups of n lines.  For every such file (any line lengths, LF or CRLF) the table has one row
+   per record and field k of entry i is line n*i + k, without the marker byte of the first line and without CR. *)
+Theorem C02_oneline_table_correct :
+  forall (n : Z) (marker : Z) (plus crlf : bool) (trows : list (list tcell)),
+    1 <= n -> trows <> [] ->
+    (forall r, In r trows -> len r = n /\ trow_ok marker (suf_of crlf) r
+                             /\ (forall c, In c r -> line_clean (ta c) /\ line_clean (tbody c))) ->
+    (plus = true -> forall r, In r trows -> exists c, nth_error r 2 = Some c /\ hd0 (tbody c ++ [10]) = 43 /\ ta c = []) ->
+    let file := flatten (map raw (List.concat trows)) in
+    exists t, oneline_table n marker plus file = Some t /\ t_data t = file
+              /\ table_fields t = map (map tbody) trows /\ len (t_starts t) = len trows
+              /\ (forall row s, In row (t_starts t) -> In s row -> 0 <= s)
+              /\ (forall row e, In row (t_ends t) -> In e row -> e < len file).
+Proof. exact oneline_table_correct. Qed.
+Print Assumptions C02_oneline_table_correct.
+(* FASTQ and two-line FASTA, whole files: name without marker, sequence by symbol, qualities = byte - 33. *)
+Theorem C02_fastq_end_to_end :
+  forall (crlf : bool) (recs : list (list (list Z))),
+    recs <> [] -> (forall r, In r recs -> len r = 4 /\ rec_clean r) ->
+    run Ffastq None (lay (eol_of crlf) (body_lines Ffastq 0 recs [])) = Obs (len recs) (spec_cols Ffastq None recs) true.
+Proof. exact fastq_end_to_end. Qed.
+Print Assumptions C02_fastq_end_to_end.
+Theorem C02_fasta2_end_to_end :
+  forall (crlf : bool) (recs : list (list (list Z))),
+    recs <> [] -> (forall r, In r recs -> len r = 2 /\ rec_clean r) ->
+    run Ffasta2 None (lay (eol_of crlf) (body_lines Ffasta2 0 recs [])) = Obs (len recs) (spec_cols Ffasta2 None recs) true.
+Proof. exact fasta2_end_to_end. Qed.
+Print Assumptions C02_fasta2_end_to_end.
+
+(* SAM.  The ragged table (records with different numbers of TAB-separated fields) denotes the eleven mandatory
+   fields of every record, and the rest-of-line arithmetic yields the optional tags as written (empty when absent). *)
+Theorem C02_sam_table_correct :
+  forall (rows : list (list (list Z))),
+    rows <> [] ->
+    (forall r, In r rows -> (11 <= List.length r)%nat /\ forall f, In f r -> clean f) ->
+    let file := lay [10] (map (intercalate [9]) rows) in
+    exists t E, sam_table file = Some t /\ t_data t = file
+              /\ table_ok t (map (firstn 11) rows) /\ len (t_starts t) = len rows
+              /\ t_ends t = map (firstn 11) E /\ t_eends t = map (fun r => lastz r + 1) E /\ List.length (t_starts t) = List.length E
+              /\ map (rest_of file) E = map (fun r => intercalate [9] (skipn 11 r)) rows.
+Proof. exact sam_table_correct. Qed.
+Print Assumptions C02_sam_table_correct.
+(* SAM, whole LF files: '@' header lines never become entries; name, flag, reference, position (as written), mapq,
+   cigar, mate fields, template length (signed), sequence and quality texts, and the tags as one text column. *)
+Theorem C02_sam_end_to_end :
+  forall (hs : list (list Z)) (rows : list (list (list Z))),
+    (forall h, In h hs -> hd0 h = 64 /\ ~ In 10 h) ->
+    rows <> [] ->
+    (forall r, In r rows -> (11 <= List.length r)%nat /\ forall f, In f r -> clean f) ->
+    (forall jt, In jt (schema Fsam) -> snd jt <> TRest -> col_wf rows 11 jt) ->
+    hd0 (body_of false rows) <> 64 ->
+    run Fsam None (lay [10] hs ++ body_of false rows) = Obs (len rows) (spec_cols Fsam None rows) true.
+Proof. exact sam_end_to_end. Qed.
+Print Assumptions C02_sam_end_to_end.
 
 (* T3: header and comment lines at the top of the file never reach the parser: whatever the lines are (as long
    as each starts with the format's comment byte), reading resumes exactly at the first record. *)
@@ -207,6 +312,33 @@ Example C02_nonvacuous_bed3 :
   /\ spec_cols Fbed3 None rows = [Col [CBytes (unhex "63"%string); CBytes (unhex "63687231"%string)];
                                   Col [CInt (-5); CInt 123456789]; Col [CInt 7; CInt 12]].
 Proof. vm_compute. split; reflexivity. Qed.
+(* a BED12 record list (trailing commas, "." score, strand) meets every hypothesis of the generic end-to-end theorem
+   (the decidable ones checked by computation), and the model returns the specified columns *)
+Example C02_nonvacuous_bed12 :
+  let rows := [[unhex "63"; unhex "31"; unhex "323030"; unhex "6e"; unhex "2e"; unhex "2b"; unhex "31"; unhex "32"; unhex "302c30"; unhex "32";
+                unhex "31302c32302c"; unhex "302c3330"];
+               [unhex "6368723132"; unhex "35"; unhex "39"; unhex ""; unhex "373030"; unhex "2e"; unhex "35"; unhex "39"; unhex "30"; unhex "31";
+                unhex "39"; unhex ""]]%string in
+  forallb (fun jt => (0 <=? fst jt) && (fst jt <? 12) && forallb (fun r => wf_field (snd jt) (field r (fst jt))) rows) (all_cols Fbed12) = true
+  /\ run Fbed12 None (body_of true rows) = Obs 2 (spec_cols Fbed12 None rows) true
+  /\ nth 10 (spec_cols Fbed12 None rows) ColErr = Col [CInts [10; 20]; CInts [9]]
+  /\ nth 11 (spec_cols Fbed12 None rows) ColErr = Col [CInts [0; 30]; CInts []].
+Proof. vm_compute. repeat split; reflexivity. Qed.
+(* a CRLF FASTQ file with an empty sequence and a '+name' line *)
+Example C02_nonvacuous_fastq :
+  let recs := [[unhex "7231"; unhex "41434754"; unhex ""; unhex "49492149"]; [unhex "72322078"; unhex ""; unhex "7232"; unhex ""]]%string in
+  run Ffastq None (lay (eol_of true) (body_lines Ffastq 0 recs [])) = Obs 2 (spec_cols Ffastq None recs) true
+  /\ nth 2 (spec_cols Ffastq None recs) ColErr = Col [CInts [40; 40; 0; 40]; CInts []].
+Proof. vm_compute. split; reflexivity. Qed.
+(* a SAM file with a header line, one record without tags and one with two tags *)
+Example C02_nonvacuous_sam :
+  let rows := [[unhex "7231"; unhex "30"; unhex "63"; unhex "35"; unhex "3630"; unhex "344d"; unhex "2a"; unhex "30"; unhex "2d37"; unhex "41434754"; unhex "49494949"];
+               [unhex "7232"; unhex "3136"; unhex "63"; unhex "3135"; unhex "30"; unhex "324d"; unhex "3d"; unhex "33"; unhex "30"; unhex "4143"; unhex "217e";
+                unhex "4e4d3a693a30"; unhex "58583a5a3a61"]]%string in
+  run Fsam None (lay [10] [unhex "40484409564e3a312e36"%string] ++ body_of false rows) = Obs 2 (spec_cols Fsam None rows) true
+  /\ nth 11 (spec_cols Fsam None rows) ColErr = Col [CBytes []; CBytes (unhex "4e4d3a693a300958583a5a3a61"%string)]
+  /\ nth 8 (spec_cols Fsam None rows) ColErr = Col [CInt (-7); CInt 0].
+Proof. vm_compute. repeat split; reflexivity. Qed.
 (* a whole BED6 file through the whole model *)
 Example C02_nonvacuous_run :
   run Fbed6 None (unhex "2368647209780a63317431093509313209610931302b0a"%string) <> ObsErr.
